@@ -53,7 +53,10 @@ ProgsOf(s, o) == TimeoutProgs \cup {
   <<OSet(K1, 0), OSet(K2, 0), OEv>>,                                        \* deletes storage
   <<Out(s), OCall(o, 0, <<Out(s), ORevert>>, TRUE), OCall(o, 0, <<Out(s)>>, TRUE), OBurn(2)>>,
   <<OTake(1), OCall(o, 1, <<OTake(1), OXfer("a", 3, TRUE)>>, TRUE), OXfer("a", 1, TRUE)>>, \* refunds
-  <<OSet(K1, 1), OCall(Ee, 0, <<OSet(K2, 2), OEv, OCall(o, 0, <<OSet(K1, 2), OEv, ORevert>>, TRUE)>>, FALSE), OEv>>
+  <<OSet(K1, 1), OCall(Ee, 0, <<OSet(K2, 2), OEv, OCall(o, 0, <<OSet(K1, 2), OEv, ORevert>>, TRUE)>>, FALSE), OEv>>,
+  \* inter-call transfers to the account-form twin of a contract: fail after the debit
+  <<OSet(K1, 1), OXfer("xh", 1, FALSE)>>,
+  <<OXfer("xh", 1, TRUE), OEv, OXfer("b", 1, FALSE)>>
 }
 Other(c) == IF c = "x" THEN "y" ELSE "x"
 \* the synchronous contract runs the timeout programs and a few basic ones
@@ -80,8 +83,9 @@ NoValue == SyncContracts \cup EEContracts \cup Hangers
 
 Shape(kind, to, dlen, prog) == [kind |-> kind, to |-> to, dlen |-> dlen, prog |-> prog]
 Shapes ==
-  {Shape("transfer", to, 0, <<>>) : to \in Payees \cup (Contracts \ NoValue) \cup Ghosts}
-  \cup {Shape("message", to, MsgLen, <<>>) : to \in Users \cup (Contracts \ NoValue)}
+  {Shape("transfer", to, 0, <<>>) : to \in Payees \cup (Contracts \ NoValue) \cup Ghosts \cup WrongForm}
+  \cup {Shape("message", to, MsgLen, <<>>) : to \in Users \cup (Contracts \ NoValue) \cup WrongForm}
+  \cup {Shape("call", g, CallLen, <<>>) : g \in CxTwins}
   \cup UNION {{Shape("call", c, CallLen, p) : p \in ProgsOf(c, Other(c))} : c \in Contracts \ NoValue}
   \cup {Shape("call", c, CallLen, p) : c \in SyncContracts, p \in SyncProgs}
   \cup {Shape("call", c, CallLen, p) : c \in EEContracts, p \in EEProgs}
